@@ -122,6 +122,18 @@ func ListDefs(ts ...*T) string {
 					sl[id] = true
 				}
 			}
+			// after simplification the literal id may appear without its constructor
+			if (x.Op == "memI" || x.Op == "memS") && x.Args[1].isLit() {
+				id := x.Args[1].Lit.Int64()
+				if x.Op == "memI" {
+					il[id] = true
+				} else {
+					sl[id] = true
+				}
+			}
+			if x.Op == "emptyL" && x.Args[0].isLit() {
+				sl[x.Args[0].Lit.Int64()] = true
+			}
 		})
 	}
 	keys := func(m map[int64]bool) []int64 {
